@@ -6,8 +6,13 @@ open Foundation Foundation.Cache Driver
 structure S where
   st : St
   keys : List String      -- key universe seen so far (sorted)
+  faults : List String := []   -- injected ledger-read faults not yet hit (one entry per fault)
 
-def init : S := ⟨Cache.init (fun _ => ""), []⟩
+def init : S := ⟨Cache.init (fun _ => ""), [], []⟩
+
+/-- does this read go down to the ledger? (nothing cached on the way) -/
+def reachesLedger (s : St) (txLevel : Bool) (k : String) : Bool :=
+  (!txLevel || (s.tw k).isNone) && (s.bw k).isNone && (s.rd k).isNone
 
 def showW : Key × W → String
   | (k, .put v) => s!"{k}={enc v}"
@@ -17,24 +22,30 @@ def dump (m : Key → Val) (keys : List String) : String :=
   joinOr "," ((keys.filter (fun k => m k ≠ "")).map (fun k => s!"{k}={m k}"))
 
 def get (s : S) (op : Op) (k : String) : S × String :=
+  let txLevel := match op with | .tget _ => true | _ => false
+  -- an injected fault: the read that reaches the ledger fails, and nothing is remembered of it
+  if s.faults.contains k ∧ reachesLedger s.st txLevel k then
+    ({ s with faults := s.faults.erase k, keys := insertSorted k s.keys }, "err")
+  else
   let r := Cache.step s.st op
-  (⟨r.1, insertSorted k s.keys⟩, "v:" ++ enc (r.2.getD ""))
+  ({ s with st := r.1, keys := insertSorted k s.keys }, "v:" ++ enc (r.2.getD ""))
 
 def step (s : S) : List String → S × String
   | ["reset", kvs] =>
     let l := parseKVs kvs
-    (⟨Cache.init (ofKVs l), l.foldl (fun ks kv => insertSorted kv.1 ks) []⟩, "ok")
-  | ["tx"] => (⟨txDiscard s.st, s.keys⟩, "ok")
+    (⟨Cache.init (ofKVs l), l.foldl (fun ks kv => insertSorted kv.1 ks) [], []⟩, "ok")
+  | ["fault", k] => ({ s with faults := k :: s.faults }, "ok")
+  | ["tx"] => ({ s with st := txDiscard s.st }, "ok")
   | ["tget", k] => get s (.tget k) k
   | ["bget", k] => get s (.bget k) k
-  | ["tput", k, v] => (⟨(Cache.step s.st (.tput k (dec v))).1, insertSorted k s.keys⟩, "ok")
-  | ["tdel", k] => (⟨(Cache.step s.st (.tdel k)).1, insertSorted k s.keys⟩, "ok")
-  | ["bput", k, v] => (⟨(Cache.step s.st (.bput k (dec v))).1, insertSorted k s.keys⟩, "ok")
-  | ["bdel", k] => (⟨(Cache.step s.st (.bdel k)).1, insertSorted k s.keys⟩, "ok")
+  | ["tput", k, v] => ({ s with st := (Cache.step s.st (.tput k (dec v))).1, keys := insertSorted k s.keys }, "ok")
+  | ["tdel", k] => ({ s with st := (Cache.step s.st (.tdel k)).1, keys := insertSorted k s.keys }, "ok")
+  | ["bput", k, v] => ({ s with st := (Cache.step s.st (.bput k (dec v))).1, keys := insertSorted k s.keys }, "ok")
+  | ["bdel", k] => ({ s with st := (Cache.step s.st (.bdel k)).1, keys := insertSorted k s.keys }, "ok")
   | ["tcommit"] =>
     let ws := txWrites s.st
-    (⟨txCommit s.st, s.keys⟩, joinOr ";" (ws.map showW))
-  | ["tdiscard"] => (⟨txDiscard s.st, s.keys⟩, "ok")
+    ({ s with st := txCommit s.st }, joinOr ";" (ws.map showW))
+  | ["tdiscard"] => ({ s with st := txDiscard s.st }, "ok")
   | ["bcommit"] => (s, dump (batchCommit s.st) s.keys)
   | _ => (s, "bad-op")
 
@@ -45,8 +56,9 @@ structure J where
   m : Spec
   ow : List (String × Option String)   -- own writes of the current tx in order (ghost, for the write list)
   keys : List String
+  faults : List String := []           -- injected read faults that may still strike
 
-def jinit : J := ⟨⟨fun _ => "", fun _ => none, []⟩, [], []⟩
+def jinit : J := ⟨⟨fun _ => "", fun _ => none, []⟩, [], [], []⟩
 
 def lastWins (ow : List (String × Option String)) : List String :=
   let ks := ow.foldl (fun acc kv => insertSorted kv.1 acc) []
@@ -62,20 +74,29 @@ def jstep (j : J) (ws : List String) : J × String :=
   match ws with
   | ["reset", kvs, "=>", _] =>
     let l := parseKVs kvs
-    (⟨⟨ofKVs l, fun _ => none, []⟩, [], l.foldl (fun ks kv => insertSorted kv.1 ks) []⟩, "pass")
-  | ["tx", "=>", _] => (⟨j.m.discard, [], j.keys⟩, "pass")
-  | ["tdiscard", "=>", _] => (⟨j.m.discard, [], j.keys⟩, "pass")
+    (⟨⟨ofKVs l, fun _ => none, []⟩, [], l.foldl (fun ks kv => insertSorted kv.1 ks) [], []⟩, "pass")
+  | ["fault", k, "=>", _] => ({ j with faults := k :: j.faults }, "pass")
+  | ["tx", "=>", _] => ({ j with m := j.m.discard, ow := [] }, "pass")
+  | ["tdiscard", "=>", _] => ({ j with m := j.m.discard, ow := [] }, "pass")
+  -- a read may fail only where a fault was injected (the fault is then spent); a read that answers
+  -- must answer the view, fault or no fault — a failed read is remembered by nobody
   | ["tget", k, "=>", o] =>
-    (⟨j.m, j.ow, insertSorted k j.keys⟩, verdict (o = "v:" ++ enc (j.m.t k)) "get_is_view" s!"tget {k} expected {enc (j.m.t k)} got {o}")
+    if o = "err" then
+      ({ j with faults := j.faults.erase k, keys := insertSorted k j.keys }, verdict (j.faults.contains k) "get_is_view" s!"tget {k} failed without a fault")
+    else
+    ({ j with keys := insertSorted k j.keys }, verdict (o = "v:" ++ enc (j.m.t k)) "get_is_view" s!"tget {k} expected {enc (j.m.t k)} got {o}")
   | ["bget", k, "=>", o] =>
-    (⟨j.m, j.ow, insertSorted k j.keys⟩, verdict (o = "v:" ++ enc (j.m.c k)) "get_is_view" s!"bget {k} expected {enc (j.m.c k)} got {o}")
-  | ["tput", k, v, "=>", _] => (⟨(specStep j.m (.tput k (dec v))).1, j.ow ++ [(k, some (dec v))], insertSorted k j.keys⟩, "pass")
-  | ["tdel", k, "=>", _] => (⟨(specStep j.m (.tdel k)).1, j.ow ++ [(k, none)], insertSorted k j.keys⟩, "pass")
-  | ["bput", k, v, "=>", _] => (⟨(specStep j.m (.bput k (dec v))).1, j.ow, insertSorted k j.keys⟩, "pass")
-  | ["bdel", k, "=>", _] => (⟨(specStep j.m (.bdel k)).1, j.ow, insertSorted k j.keys⟩, "pass")
+    if o = "err" then
+      ({ j with faults := j.faults.erase k, keys := insertSorted k j.keys }, verdict (j.faults.contains k) "get_is_view" s!"bget {k} failed without a fault")
+    else
+    ({ j with keys := insertSorted k j.keys }, verdict (o = "v:" ++ enc (j.m.c k)) "get_is_view" s!"bget {k} expected {enc (j.m.c k)} got {o}")
+  | ["tput", k, v, "=>", _] => ({ j with m := (specStep j.m (.tput k (dec v))).1, ow := j.ow ++ [(k, some (dec v))], keys := insertSorted k j.keys }, "pass")
+  | ["tdel", k, "=>", _] => ({ j with m := (specStep j.m (.tdel k)).1, ow := j.ow ++ [(k, none)], keys := insertSorted k j.keys }, "pass")
+  | ["bput", k, v, "=>", _] => ({ j with m := (specStep j.m (.bput k (dec v))).1, keys := insertSorted k j.keys }, "pass")
+  | ["bdel", k, "=>", _] => ({ j with m := (specStep j.m (.bdel k)).1, keys := insertSorted k j.keys }, "pass")
   | ["tcommit", "=>", o] =>
     let exp := joinOr ";" (lastWins j.ow)
-    (⟨j.m.commit, [], j.keys⟩, verdict (o = exp) "writes_sorted_lastwins" s!"expected {exp} got {o}")
+    ({ j with m := j.m.commit, ow := [] }, verdict (o = exp) "writes_sorted_lastwins" s!"expected {exp} got {o}")
   | ["bcommit", "=>", o] =>
     let exp := dump j.m.c j.keys
     (j, verdict (o = exp) "commit_exact" s!"expected {exp} got {o}")
